@@ -1891,13 +1891,23 @@ func (e *Enc) encodeReturn(in *ssa.Return, st *State) {
 	res := e.resultVars(in)
 	for i, cl := range e.fc.Ensures {
 		retBlock := in.Block()
-		c := e.evalCtx(st, e.entry, mergeVars(res, e.params), func(name string) (TV, bool) { return e.resolveLocal(name, retBlock, st) }, fmt.Sprintf("%s ensures#%d", e.key, i+1))
-		goal := c.boolTerm(cl.E)
 		label := cl.Label
 		if label == "" {
 			label = fmt.Sprint(i + 1)
 		}
-		e.oblig("post", fmt.Sprintf("post[%s]@return#%d", label, e.retOrd), goal, cl.Src+"   [at the return in "+posOf(e.fn, in.Pos())+"]", cl)
+		// one obligation per conjunct (of the clause, or of the consequent of an implication)
+		parts := splitEnsures(cl.E)
+		for pi, pe := range parts {
+			c := e.evalCtx(st, e.entry, mergeVars(res, e.params), func(name string) (TV, bool) { return e.resolveLocal(name, retBlock, st) }, fmt.Sprintf("%s ensures#%d", e.key, i+1))
+			goal := c.boolTerm(pe)
+			name := label
+			src := cl.Src
+			if len(parts) > 1 {
+				name = fmt.Sprintf("%s.%d", label, pi+1)
+				src = pe.String()
+			}
+			e.oblig("post", fmt.Sprintf("post[%s]@return#%d", name, e.retOrd), goal, src+"   [at the return in "+posOf(e.fn, in.Pos())+"]", cl)
+		}
 	}
 	if e.fc.HasMod {
 		// declared frame: every relevant heap outside `modifies` is unchanged
@@ -2069,4 +2079,22 @@ func escapes(v ssa.Value, seen map[ssa.Value]bool) bool {
 		}
 	}
 	return false
+}
+
+
+// splitEnsures splits `A && B` into [A, B] and `P ==> (A && B)` into [P ==> A, P ==> B].
+func splitEnsures(e Expr) []Expr {
+	if b, ok := e.(*EBinary); ok {
+		switch b.Op {
+		case "&&":
+			return append(splitEnsures(b.X), splitEnsures(b.Y)...)
+		case "==>":
+			var out []Expr
+			for _, c := range splitEnsures(b.Y) {
+				out = append(out, &EBinary{"==>", b.X, c})
+			}
+			return out
+		}
+	}
+	return []Expr{e}
 }
